@@ -513,6 +513,13 @@ def run_content(spec, ctx):
                     ctx.violation("filtered-spec-not-loaded-from-archive", {"exceptions": repr(dict(br.exceptions))[:300]}, spec=spec)
                     continue
                 check_content(path, tagged, list(prov.content), flt, ctx, spec)
+                # the same stored file as an entry of a serialized archive (what `insights collect` writes and
+                # hydration loads): the analysing process' filters apply there as well
+                from insights.core.context import SerializedArchiveContext
+                from insights.core.spec_factory import SerializedOutputProvider
+                sprov = SerializedOutputProvider("etc/data.txt", root=root, ctx=SerializedArchiveContext(root), ds=S.a)
+                ctx.count("loads_as_serialized_archive_entry")
+                check_content("serialized-archive", tagged, list(sprov.content), flt, ctx, spec)
             elif path == "cleaner":
                 out = cleaner.clean_content(list(lines), allowlist=dict(flt))
                 check_content(path, tagged, out, flt, ctx, spec)
